@@ -23,6 +23,8 @@ func propC17(r *Report, tier string) {
 	ruleQueryOptionsReachSearcher(r, "K9b-query-options-reach-searcher", queryOptionAllow)
 	ruleTempDecoderDefaultsOnAbsenceOnly(r, "K9-temp-decoder-absence", "bleve", "search", "search/query")
 	ruleCompactFormComplete(r, "K9c-compact-form-complete", "search", "search/query", "mapping", "bleve")
+	ruleOmitemptyNeedsEmptyDefault(r, "K9-omitempty-default-empty")
+	ruleZeroTimeIsOpenEnd(r, "K9-zero-time-is-open-end")
 	r.Floor("K10-dispatch", 25)
 	r.Floor("K9c-marshal-keys-read", 8)
 	r.Floor("K9a-search-request", 10)
@@ -398,6 +400,25 @@ func ruleParseQueryDispatch(r *Report, rule string) {
 		}
 		disc := map[string]bool{}
 		positiveKeys(info, atoms, branches[own].Cond, false, disc)
+		// a clause-typed field (Query / []Query) can be the only content of a
+		// valid query of this type, so its key must be one the branch tests
+		if st, isSt := nt.Underlying().(*types.Struct); isSt && len(disc) > 0 {
+			for _, jf := range jsonFieldsOf(st) {
+				if jf.Skip || !jf.Tagged {
+					continue
+				}
+				ft := jf.Var.Type()
+				if sl, ok := ft.(*types.Slice); ok {
+					ft = sl.Elem()
+				}
+				fnt, _ := ft.(*types.Named)
+				if fnt == nil || fnt.Obj().Name() != "Query" || !types.IsInterface(fnt) {
+					continue
+				}
+				r.Ob(rule, tname+"/clause-key-"+jf.Key+"-selects-own-branch", branches[own].Pos, disc[jf.Key],
+					"field "+jf.Var.Name()+" of "+tname+" holds a sub-query and is written as \""+jf.Key+"\"; a query whose only clause is that one is valid, but the "+want+" branch of ParseQuery does not test the key, so such a query marshals and then fails to parse back (unknown query type)")
+			}
+		}
 		// enumerate presence/kind vectors
 		type choice struct {
 			key  string
